@@ -11,7 +11,7 @@ PROP = {'areas': [{'also': ['C01:monitor:104'],
                        'corpus/engine/d9_connack_before_connect_flushed.script'],
             'extra': ['100'],
             'only_prop': 'C04',
-            'quick': 4000,
+            'quick': 12000,
             'thorough': 2000000,
             'tie_fields': ['out', 'done', 'ops', 'rq', 'uq', 'hq', 'ppub', 'cur']}],
  'coq_target': 'Properties/C04.vo',
